@@ -316,7 +316,9 @@ class _Component:
                 )
             else:
                 pval = _get_mand(config[cls._cparams["name"]], key)
-            if type(pval) not in cls._cparams["params"][key]["typ"]:
+            typ = cls._cparams["params"][key]["typ"]
+            # an inline table is parsed into a subclass of dict
+            if type(pval) not in typ and not (dict in typ and isinstance(pval, dict)):
                 raise ValueError("Parameter {} is not of the correct type".format(key))
             fparams[key] = pval
 
